@@ -66,6 +66,10 @@ def crash_exec(prog: Program, knobs: Any, seed: int, ref: dict[str, Any], points
         ex.submit()
         w = ex.world
         w.crash_at = (ex.eng.client_commits + int(points[0][0]), str(points[0][1]))
+        # recipe after the restart: locks lapse first and then the sweep runs, or the sweep runs at once (what a worker
+        # that comes back quickly does: the dead worker's locks are still held, delayed messages are not due yet) and the
+        # locks lapse afterwards
+        ex.lapse_first = bool(points[0][2]) if len(points[0]) > 2 else True  # type: ignore[attr-defined]
         pending = [list(p) for p in (second or [])]
 
         def on_crash(e: Exec) -> None:
@@ -137,6 +141,12 @@ def judge(prog: Program, ref: dict[str, Any], ex: Exec, res: Any, fs: dict[str, 
                 problems.append(("work-skipped", f"tasks executed fewer times than uninterrupted: {under}"))
         for x in check_ledger_unique(h, "C01", ex.crash_marks):
             problems.append(("step-executed-twice", x["msg"]))
+        from sim.oracles import recovery_duplicates
+
+        for x in recovery_duplicates(h)[:1]:
+            problems.append(("more-than-inflight-reexecuted",
+                             f"the recovery sweep queued {x['queued']} for task {x['task']} although a live {x['already']} message for it was "
+                             f"already in the queue: a second chain of executions for one task"))
         # a dead-lettered message is judged only where the outcome is schedule independent: once a halting
         # failure cancels concurrently running branches, which late messages exist at all depends on the schedule
         if fs["queue"] or (fs["dlq"] and not status_racy):
@@ -252,7 +262,8 @@ def run_one(seed: int, tier: str) -> dict[str, Any]:
             second = [[ch.pick("second.off", 12), ch.choice("second.when", ["before", "after"])]]
             if ch.flip("third", 0.2):
                 second.append([ch.pick("third.off", 10), ch.choice("third.when", ["before", "after"])])
-        r = crash_exec(prog, knobs, seed, ref, [[k, when]], second)
+        lapse_first = 0 if ch.flip("lapse.later", 0.4) else 1
+        r = crash_exec(prog, knobs, seed, ref, [[k, when, lapse_first]], second)
         out["execs"] += 1
         out["sim_us"] += r["sim_us"] - 1_893_456_000_000_000
         out["digests"][r["digest"]] = r["fired"] > 0
@@ -264,7 +275,7 @@ def run_one(seed: int, tier: str) -> dict[str, Any]:
             out["stats"]["multi_crash_execs"] = out["stats"].get("multi_crash_execs", 0) + 1
         for v in r["violations"]:
             v["replay"] = {"check": "C01", "seed": seed, "program": prog.spec, "knobs": kd,
-                           "points": [[k, when]], "second": second, "trace": []}
+                           "points": [[k, when, lapse_first]], "second": second, "trace": []}
             out["violations"].append(v)
         if len(out["violations"]) >= 6:
             break
